@@ -35,18 +35,22 @@ NonTrivialT(t) == t \in {3, 5}
 LegalW(w) == w = EmptyW \/ (w.e = 1 /\ w.t \in Targets /\ w.c \in CapDom(w.t))
 
 IpfTargetOps == {"ctor_target", "assign_target"}
-IpfSmallOps == {"ctor_copy_small", "ctor_move_small"}
+\* h: a third, persistent wrapper of a SMALLER capacity (the source of the cross-capacity constructors / assignments)
+IpfSmallCopyOps == {"ctor_copy_small", "assign_copy_small"}
+IpfSmallMoveOps == {"ctor_move_small", "assign_move_small"}
+IpfSmallOps == IpfSmallCopyOps \cup IpfSmallMoveOps
 IpfMoveOps == {"ctor_move", "assign_move"}
 IpfCopyOps == {"ctor_copy", "assign_copy"}
 IpfSwapOps == {"swap", "fswap"}
 IpfClearOps == {"ctor_default", "ctor_nullptr", "assign_nullptr"}
-IpfOps == IpfTargetOps \cup IpfSmallOps \cup IpfMoveOps \cup IpfCopyOps \cup IpfSwapOps \cup IpfClearOps \cup {"call"}
+IpfOps == IpfTargetOps \cup IpfSmallOps \cup IpfMoveOps \cup IpfCopyOps \cup IpfSwapOps \cup IpfClearOps \cup {"call", "set_small"}
 
 \* x = [t, c, a, src, m]
 IpfPre(op, o, x, s) ==
     /\ op \in IpfOps
     /\ CASE op \in IpfTargetOps -> x.t \in Targets /\ x.c \in CapDom(x.t)
-         [] op \in IpfSmallOps -> x.t = 0 \/ (x.t \in SmallTargets /\ x.c \in CapDom(x.t))
+         [] op = "set_small" -> x.t = 0 \/ (x.t \in SmallTargets /\ x.c \in CapDom(x.t))
+         [] op \in IpfSmallOps -> s.h = EmptyW \/ s.h.t \in SmallTargets
          [] op \in IpfMoveOps \cup {"ctor_copy"} -> x.src = Other(o)
          [] op = "call" -> x.a \in 0..2
          [] OTHER -> TRUE
@@ -59,8 +63,13 @@ IpfEff(op, o, x, s) ==
     LET w == s[o] IN
     CASE op \in IpfClearOps -> [st |-> [s EXCEPT ![o] = EmptyW], ret |-> <<>>, calls |-> <<>>, handler |-> 0]
       [] op \in IpfTargetOps -> [st |-> [s EXCEPT ![o] = Holds(x.t, x.c)], ret |-> <<>>, calls |-> <<>>, handler |-> 0]
-      [] op \in IpfSmallOps ->
-            [st |-> [s EXCEPT ![o] = IF x.t = 0 THEN EmptyW ELSE Holds(x.t, x.c)], ret |-> <<>>, calls |-> <<>>, handler |-> 0]
+      \* (re)construct the small wrapper h from a target (t = 0: empty)
+      [] op = "set_small" ->
+            [st |-> [s EXCEPT !.h = IF x.t = 0 THEN EmptyW ELSE Holds(x.t, x.c)], ret |-> <<>>, calls |-> <<>>, handler |-> 0]
+      \* big(const small&) / big = small: an equivalent target, the source untouched
+      [] op \in IpfSmallCopyOps -> [st |-> [s EXCEPT ![o] = s.h], ret |-> <<>>, calls |-> <<>>, handler |-> 0]
+      \* big(small&&) / big = move(small): the source is modelled as empty; IpfPost leaves it open
+      [] op \in IpfSmallMoveOps -> [st |-> [s EXCEPT ![o] = s.h, !.h = EmptyW], ret |-> <<>>, calls |-> <<>>, handler |-> 0]
       [] op \in IpfCopyOps -> [st |-> [s EXCEPT ![o] = s[x.src]], ret |-> <<>>, calls |-> <<>>, handler |-> 0]
       \* the moved-from wrapper is modelled as empty; the judged relation (IpfPost) leaves it open
       [] op \in IpfMoveOps -> [st |-> [s EXCEPT ![o] = s[x.src], ![x.src] = EmptyW], ret |-> <<>>, calls |-> <<>>, handler |-> 0]
@@ -75,14 +84,17 @@ IpfPost(op, o, x, s, t, r, calls, handler) ==
     LET ef == IpfEff(op, o, x, s) IN
     /\ r = ef.ret /\ calls = ef.calls /\ handler = ef.handler
     /\ IF op \in IpfMoveOps
-       THEN t[o] = ef.st[o] /\ (t[x.src] = EmptyW \/ LegalW(t[x.src]))     \* source: valid but unspecified
+       THEN /\ t[o] = ef.st[o] /\ (t[x.src] = EmptyW \/ LegalW(t[x.src]))     \* source: valid but unspecified
+            /\ t.h = s.h /\ t[Other(x.src)] = ef.st[Other(x.src)]
+       ELSE IF op \in IpfSmallMoveOps
+       THEN t[o] = ef.st[o] /\ t[Other(o)] = s[Other(o)] /\ (t.h = EmptyW \/ LegalW(t.h))
        ELSE t = ef.st
 
 IpfObsOne(q, w) ==
     /\ q.bool = (w.e = 1)
     /\ q.eqnull = (w.e = 0) /\ q.nulleq = (w.e = 0)
     /\ q.nenull = (w.e = 1) /\ q.nullne = (w.e = 1)
-IpfObsOK(obs, t) == IpfObsOne(obs.f, t.f) /\ IpfObsOne(obs.g, t.g)
+IpfObsOK(obs, t) == IpfObsOne(obs.f, t.f) /\ IpfObsOne(obs.g, t.g) /\ IpfObsOne(obs.h, t.h)
 
 \* lifetime cells (LifeOps): the storage of a wrapper is one cell that is alive while a non-trivial capture lives there
 IpfEls(w) == IF w.e = 1 /\ NonTrivialT(w.t) THEN <<w.c>> ELSE <<>>
